@@ -395,8 +395,25 @@ func (r *Runtime) arrayproto_sort(call FunctionCall) Value {
 	}
 
 	var s sortable
-	if r.checkStdArrayObj(o) != nil {
-		s = o.self
+	if a := r.checkStdArrayObj(o); a != nil {
+		// SortIndexedProperties sorts a list of the values and writes it back afterwards: nothing is written when the
+		// comparator throws
+		tmp := make([]Value, len(a.values))
+		copy(tmp, a.values)
+		ctx := arraySortCtx{
+			obj:     r.newArrayValues(tmp).self,
+			compare: compareFn,
+		}
+		sort.Stable(&ctx)
+		if a := r.checkStdArrayObj(o); a != nil && len(a.values) == len(tmp) {
+			copy(a.values, tmp)
+		} else {
+			// the comparator changed the array
+			for i, v := range tmp {
+				o.self.setOwnIdx(valueInt(i), v, true)
+			}
+		}
+		return o
 	} else if _, ok := o.self.(reflectValueWrapper); ok {
 		s = o.self
 	}
